@@ -202,7 +202,21 @@ class QuickPartitioner(BasePass):
                         bin.blocked_qudits.update(extended)
 
                 # Track the barrier to restore it in partitioned circuit
-                pending_bins.append(BarrierBin(point, location, circuit))
+                barrier_bin = BarrierBin(point, location, circuit)
+                pending_bins.append(barrier_bin)
+
+                # Block qudits to prevent circular dependencies: every
+                # active bin already ordered before an operation on one of
+                # the barrier's qudits must not grow onto the others
+                for active_bin in active_bins:
+                    if active_bin is None:
+                        continue
+
+                    indirect = active_bin.blocked_qudits
+                    indirect = indirect.union(active_bin.qudits)
+                    indirect = indirect.intersection(barrier_bin.qudits)
+                    if len(indirect) != 0:
+                        active_bin.blocked_qudits.update(barrier_bin.qudits)
                 continue
 
             # Get all the currently active bins that can have op added to them
